@@ -363,7 +363,6 @@ flatten_ndarray_to_sparse(struct ndsparse *array, size_t nrow, size_t ncol,
 static void
 divided_diffs(int order, int porder, int j, double* knots, double* out)
 {
-	double a[order], b[order];
 	double delta;
 	int i;
 
@@ -383,6 +382,12 @@ divided_diffs(int order, int porder, int j, double* knots, double* out)
 		out[0] = 1.0;
 		return;
 	}
+
+	/*
+	 * Scratch space is declared after the early return: for order 0
+	 * (only reached with porder 0) the arrays would have length zero.
+	 */
+	double a[order], b[order];
 
 	/*
 	 * Get each of the (n-1)th derivatives.
